@@ -290,17 +290,18 @@ pub fn site_name(id: u64) -> String {
         .unwrap_or_else(|| format!("site#{id:016x}"))
 }
 
+// (`try_with`: a thread-local destructor that runs after this one has been destroyed is outside any simulation)
 fn ctx() -> Option<(Arc<Sim>, Tid)> {
-    CTX.with(|c| c.borrow().clone())
+    CTX.try_with(|c| c.borrow().clone()).ok().flatten()
 }
 
 #[inline]
 pub fn in_sim() -> bool {
-    CTX.with(|c| c.borrow().is_some())
+    CTX.try_with(|c| c.borrow().is_some()).unwrap_or(false)
 }
 
 pub fn current_tid() -> Option<Tid> {
-    CTX.with(|c| c.borrow().as_ref().map(|(_, t)| *t))
+    CTX.try_with(|c| c.borrow().as_ref().map(|(_, t)| *t)).ok().flatten()
 }
 
 impl Sim {
@@ -990,10 +991,55 @@ where
     Ok((tid, h))
 }
 
+/// A simulated thread is finished when its OS thread has run the destructors of its thread-locals, not when its
+/// closure returns: what those destructors do (drop a guard that was parked in a thread-local, emit a last entry) is
+/// part of the thread's simulated life - it holds the baton, its scheduling points count. This value lives in the
+/// thread-local that is registered *first* on every simulated thread; thread-local destructors run in reverse order
+/// of registration, so its `drop` runs last and does the hand-over.
+struct FinishOnExit {
+    sim: Arc<Sim>,
+    tid: Tid,
+    main_panic: Option<String>,
+}
+
+thread_local! {
+    static FINISH: RefCell<Option<FinishOnExit>> = const { RefCell::new(None) };
+}
+
+impl Drop for FinishOnExit {
+    fn drop(&mut self) {
+        let (sim, tid) = (self.sim.clone(), self.tid);
+        let mut st = sim.enter(tid);
+        if st.failure.is_some() {
+            drop(st);
+            park_forever();
+        }
+        st.steps += 1;
+        GLOBAL_STEPS.fetch_add(1, Ordering::Relaxed);
+        st.threads[tid].status = Status::Finished;
+        let jk = join_key(tid);
+        for t in st.threads.iter_mut() {
+            if let Status::Blocked { key, .. } = t.status {
+                if key == jk {
+                    t.status = Status::Runnable;
+                    t.timed_out = false;
+                }
+            }
+        }
+        if let Some(p) = self.main_panic.take() {
+            st.main_panic = Some(p);
+        }
+        let _ = CTX.try_with(|c| *c.borrow_mut() = None);
+        let _st = hand_off(&sim, st, tid, 0, true);
+    }
+}
+
 fn thread_main<F, T>(sim: Arc<Sim>, tid: Tid, f: F) -> std::thread::Result<T>
 where
     F: FnOnce() -> T,
 {
+    // (order matters: FINISH is registered before CTX and before anything the thread's own code touches)
+    FINISH.with(|c| *c.borrow_mut() = Some(FinishOnExit { sim: sim.clone(), tid, main_panic: None }));
     CTX.with(|c| *c.borrow_mut() = Some((sim.clone(), tid)));
     // wait for the baton
     {
@@ -1009,31 +1055,17 @@ where
         }
     }
     let r = std::panic::catch_unwind(std::panic::AssertUnwindSafe(f));
-    // finished
-    let mut st = sim.enter(tid);
-    if st.failure.is_some() {
-        drop(st);
-        park_forever();
-    }
-    st.steps += 1;
-    GLOBAL_STEPS.fetch_add(1, Ordering::Relaxed);
-    st.threads[tid].status = Status::Finished;
-    let jk = join_key(tid);
-    for t in st.threads.iter_mut() {
-        if let Status::Blocked { key, .. } = t.status {
-            if key == jk {
-                t.status = Status::Runnable;
-                t.timed_out = false;
-            }
-        }
-    }
     if tid == 0 {
         if let Err(e) = &r {
-            st.main_panic = Some(panic_message(e));
+            let m = panic_message(e);
+            FINISH.with(|c| {
+                if let Some(fin) = c.borrow_mut().as_mut() {
+                    fin.main_panic = Some(m);
+                }
+            });
         }
     }
-    CTX.with(|c| *c.borrow_mut() = None);
-    let _st = hand_off(&sim, st, tid, 0, true);
+    // the thread-local destructors run now, still with the baton; the last of them (FINISH) finishes the thread
     r
 }
 
